@@ -76,6 +76,12 @@ def design_mc(ctx):
         wit[fid] = {"invariant": inv, "refuted": inv in w["invariant_violated"]}
         if not wit[fid]["refuted"]:
             raise lib.ToolError(f"model witness of {fid}: TLC did not refute {inv} with Defects = {{{fid}}}")
+    c3 = ctx.path("mc_merge.cfg")
+    lib.write_cfg(c3, consts, "MInit", "GNext", invariants=["MergeInv"])
+    m = lib.tlc(ctx, MODULE_MC, c3, timeout=900)
+    ctx.cov["states"] += m["distinct"]
+    ctx.cov["transitions"] += m["generated"]
+    ctx.stage("mc_merge", distinct_states=m["distinct"], wall_s=m["wall_s"])
     ctx.cov["model_witness"] = wit
     ctx.stage("mc_witness", **{k: v["refuted"] for k, v in wit.items()})
 
@@ -126,7 +132,7 @@ def random_programs(ctx, count):
         elif kind == "agroup":
             n = rng.randint(0, 700)
             path = rng.choice(["builder", "merged"])
-            p = {"kind": kind, "n": n, "srcs": rng.randint(1, 5), "path": path, "lay": lay, "vp": vp, "ord": ord_,
+            p = {"kind": kind, "n": n, "srcs": rng.randint(1, 5), "path": path, "dup": rng.choice([0, 0, 1, 2, 5]), "lay": lay, "vp": vp, "ord": ord_,
                  "probes": probe_list(rng, n, lay)}
         elif kind == "enc":
             kbc, kbe, nek = rng.choice([1, 2, 4]), rng.choice([1, 2, 4]), rng.choice([1, 1, 2, 3, 5])
@@ -138,7 +144,7 @@ def random_programs(ctx, count):
             n = rng.randint(0 if kind == "root" else 1, 260)
             rl = rng.choice(["dense", "gap", "ends"])
             p = {"kind": kind, "ver": rng.randint(1, 4), "n": n, "named": n if kind == "chain" else rng.randint(0, n), "lay": rl,
-                 "blocks": rng.choice([1, 2]), "style": rng.choice(["norm", "raw"]), "ord": ord_, "probes": probe_list(rng, n, rl)}
+                 "blocks": rng.choice([1, 2, 3]), "style": rng.choice(["norm", "raw"]), "ord": ord_, "probes": probe_list(rng, n, rl)}
             if kind == "chain":
                 p.update({"vp": vp, "kbc": rng.choice([1, 4]), "kbe": 1})
         else:
